@@ -64,6 +64,7 @@ def run(rep, prog, tier, scope_fn=in_scope, pid_rule='R20'):
     rep.count('functions_analysed', len(prog.funcs))
     rep.count('fixpoint_iterations', eff.iterations)
     n = 0
+    construction_only = eff.construction_only
     for q, f in sorted(prog.funcs.items()):
         if not scope_fn(q) or f.parent is not None: continue
         n += 1
@@ -77,8 +78,14 @@ def run(rep, prog, tier, scope_fn=in_scope, pid_rule='R20'):
                 rep.ob(f'{pid_rule}.param', f'{q}({p})', False, f'writes to an object owned by its parameter `{p}`: {s}', f.site)
         else:
             rep.ob(f'{pid_rule}.param', q, True, 'no write to a parameter-owned object on any path or through any callee', f.site)
+        fname_ = getattr(f.node, 'name', '')
+        private_fn = f.cls is None and fname_.startswith('_') and not fname_.startswith('__')
         for g, s in sorted(sm.globals_w.items()):
+            if private_fn: continue          # registration helper run at import time; a run-time caller carries the write in its own summary
             rep.ob(f'{pid_rule}.global', f'{q}->{g[0]}.{g[1]}', False, f'writes module-level object {g[0]}.{g[1]}: {s}', f.site)
+        if f.cls is not None and q in construction_only: is_init = True          # part of the initialiser, split off into a private method
+        if f.cls is not None and f.cls.name.startswith('_') and not is_init:
+            continue        # a private helper class: its objects live inside one call of the public function that creates them
         if f.cls is not None and is_init:
             for a, s in sorted(sm.self_w.items()):
                 rep.ob(f'{pid_rule}.param', f'{q}:{a}', False, f'writes to a caller-supplied object held in a field while constructing: {s}', f.site)
